@@ -30,6 +30,7 @@ static wuffs_base__status call_f2(wuffs_demo__parser* p, wuffs_base__io_buffer* 
 static wuffs_base__status call_f3(wuffs_demo__parser* p, wuffs_base__io_buffer* d, wuffs_base__io_buffer* s) { return wuffs_demo__parser__f3(p, s); }
 static wuffs_base__status call_f4(wuffs_demo__parser* p, wuffs_base__io_buffer* d, wuffs_base__io_buffer* s) { return wuffs_demo__parser__f4(p, s); }
 static wuffs_base__status call_f7(wuffs_demo__parser* p, wuffs_base__io_buffer* d, wuffs_base__io_buffer* s) { return wuffs_demo__parser__f7(p, s); }
+static wuffs_base__status call_f8(wuffs_demo__parser* p, wuffs_base__io_buffer* d, wuffs_base__io_buffer* s) { return wuffs_demo__parser__f8(p, s); }
 static wuffs_base__status call_f5(wuffs_demo__parser* p, wuffs_base__io_buffer* d, wuffs_base__io_buffer* s) { return wuffs_demo__parser__f5(p, s); }
 
 typedef struct {
@@ -38,6 +39,7 @@ typedef struct {
   uint8_t out[DSTN];
   uint32_t total, count, acc;
   uint8_t last;
+  uint64_t wide;
 } outcome;
 
 static void run(io_coro fn, wuffs_demo__parser* p, const uint8_t* in, uint64_t n, int garbage_dst, outcome* o) {
@@ -57,13 +59,14 @@ static void run(io_coro fn, wuffs_demo__parser* p, const uint8_t* in, uint64_t n
   o->count = p->private_impl.f_count;
   o->acc = p->private_impl.f_acc;
   o->last = p->private_impl.f_last;
+  o->wide = p->private_impl.f_wide;
 }
 
 static void same(const outcome* a, const outcome* b, const char* l_status, const char* l_counts, const char* l_bytes, const char* l_state) {
   verif_check(a->st.repr == b->st.repr, l_status);
   verif_check(a->ri == b->ri && a->wi == b->wi, l_counts);
   for (int i = 0; i < DSTN; i++) verif_check(a->out[i] == b->out[i], l_bytes);
-  verif_check(a->total == b->total && a->count == b->count && a->acc == b->acc && a->last == b->last, l_state);
+  verif_check(a->total == b->total && a->count == b->count && a->acc == b->acc && a->last == b->last && a->wide == b->wide, l_state);
 }
 
 static void garbage_independent(io_coro fn) {
@@ -108,6 +111,7 @@ void harness_garbage_f3(void) { garbage_independent(call_f3); }
 void harness_garbage_f4(void) { garbage_independent(call_f4); }
 void harness_garbage_f5(void) { garbage_independent(call_f5); }
 void harness_garbage_f7(void) { garbage_independent(call_f7); }
+void harness_garbage_f8(void) { garbage_independent(call_f8); }
 void harness_garbage_f6(void) { garbage_independent(wuffs_demo__parser__f6); }
 void harness_garbage_transform(void) { garbage_independent(call_transform); }
 
